@@ -12,6 +12,7 @@ import (
 	"strconv"
 	"strings"
 	"sync"
+	"time"
 
 	"aaverif/internal/plan"
 	"aaverif/internal/ref"
@@ -281,6 +282,81 @@ func checkC07(e *Env) {
 		}
 	}
 
+	// layer 4: concurrent default-source calls under the race detector, with the
+	// interposer attributing every crypto/rand read to the goroutine that made it:
+	// each sentence must encode exactly the bytes delivered to its own goroutine
+	raceDrv := e.BuildDrv(true)
+	concProcs := e.pick(3, 24)
+	parallel(concProcs, max(1, e.Workers/4), func(ci int) {
+		r := rng.New(e.Seed, "C07-conc-"+itoa(ci))
+		c := &plan.Conc{GoMaxProcs: []int{1, 2, 8, 4}[ci%4]}
+		G := []int{8, 4, 16}[ci%3]
+		for w := 0; w < G; w++ {
+			var ops []plan.Op
+			for k := 0; k < e.pick(60, 200); k++ {
+				ops = append(ops, plan.Op{I: k, Fn: "new", N: int64(ref.WordCounts[r.Intn(5)]), L: int64(r.Intn(ref.NLang))})
+			}
+			c.Workers = append(c.Workers, ops)
+		}
+		cr := e.RunConc(raceDrv, c, "c07-"+itoa(ci), []string{"VERIF_EARLYRAND=1"}, 10*time.Minute)
+		viol := func(what string, detail any) {
+			e.Violate(&Violation{What: fmt.Sprintf("concurrent default-source process %d (%d goroutines, GOMAXPROCS %d): %s", ci, G, c.GoMaxProcs, what), Conc: c, Race: true, ChildEnv: []string{"VERIF_EARLYRAND=1"}, Detail: detail})
+		}
+		for _, lg := range cr.RaceLogs {
+			for _, b := range raceBlocks(lg) {
+				if strings.Contains(b, "github.com/islishude/bip39") {
+					viol("the race detector reports a data race on the path from crypto/rand to the mnemonic: "+oneLine(raceSignature(b), 300), b)
+					return
+				}
+				fatalInconclusive("C07: race report without a frame of the package: %s", oneLine(b, 300))
+			}
+		}
+		if cr.Trailer == nil {
+			viol("the process produced no complete result set: "+oneLine(cr.Stderr+" "+cr.ExitErr, 300), cr.Stderr)
+			return
+		}
+		gidOf := map[int64]int{}
+		for _, inf := range cr.Trailer.Info {
+			var w int
+			var g int64
+			if n, _ := fmt.Sscanf(inf, "worker%d=goid%d", &w, &g); n == 2 {
+				gidOf[g] = w
+			}
+		}
+		delivered := make([][]byte, G)
+		for _, ev := range cr.Trailer.Reads {
+			if w, ok := gidOf[ev.G]; ok {
+				delivered[w] = append(delivered[w], unhex(ev.D)...)
+			}
+		}
+		consumed := make([]int, G)
+		for i := range cr.Results {
+			res := &cr.Results[i]
+			op := &c.Workers[res.G][res.I]
+			need := int(op.N) + int(op.N)/3
+			if res.Panic != "" || res.Err != nil {
+				viol("a concurrent default-source NewMnemonic failed: "+oneLine(res.Panic+errText(res.Err), 200), res)
+				return
+			}
+			w := res.G
+			if consumed[w]+need > len(delivered[w]) {
+				viol(fmt.Sprintf("worker %d call %d returned a mnemonic although crypto/rand.Reader delivered no further bytes to this goroutine", w, res.I), res)
+				return
+			}
+			want := e.Model.Enc(delivered[w][consumed[w]:consumed[w]+need], int(op.L))
+			consumed[w] += need
+			if got := string(unhex(res.Out)); got != want {
+				viol(fmt.Sprintf("worker %d call %d: NewMnemonic(%d, %s) = %s, but the bytes crypto/rand.Reader delivered to this goroutine during the call encode to %s", w, res.I, op.N, ref.Names[op.L], preview(got), preview(want)), res)
+				return
+			}
+			obs.Inc("concurrent_calls_matched_per_goroutine")
+		}
+		mu.Lock()
+		totalCalls += len(cr.Results)
+		mu.Unlock()
+		obs.Inc("concurrent_processes_under_race_detector")
+	})
+
 	// statistics over all default sentences of all processes
 	dupes := 0
 	seenEnt := map[string]bool{}
@@ -323,7 +399,7 @@ func checkC07(e *Env) {
 	e.WriteEvidence("exploration", map[string]any{
 		"evaluations":            totalCalls,
 		"distinct_nontrivial":    dist.Len(),
-		"rule":                   "cases are default-source NewMnemonic calls (all five word counts, all ten languages) made in fresh processes that swapped nothing; half of the processes run with the crypto/rand interposer (aaverif/internal/earlyrand, initialised before bip39) where every sentence must decode to exactly the bytes crypto/rand.Reader delivered during that call (the interposer also fragments reads in some processes and makes one read fail in others: that call must then return (\"\", error)), the other half with the untouched crypto/rand.Reader where the pre-swap source must be identical to it; further processes run without any hook under strace and every sentence must decode to the buffer of one getrandom(2) call; non-trivial = every call (each is matched against observed source bytes or decoded for the duplicate/uniformity statistics); distinct = distinct entropies observed",
+		"rule":                   "cases are default-source NewMnemonic calls (all five word counts, all ten languages) made in fresh processes that swapped nothing; half of the processes run with the crypto/rand interposer (aaverif/internal/earlyrand, initialised before bip39) where every sentence must decode to exactly the bytes crypto/rand.Reader delivered during that call (the interposer also fragments reads in some processes and makes one read fail in others: that call must then return (\"\", error)), the other half with the untouched crypto/rand.Reader where the pre-swap source must be identical to it; further processes run 4-16 goroutines under the race detector with the interposer attributing reads to goroutines (each sentence must encode the bytes delivered to its own goroutine); further processes run without any hook under strace and every sentence must decode to the buffer of one getrandom(2) call; non-trivial = every call (each is matched against observed source bytes or decoded for the duplicate/uniformity statistics); distinct = distinct entropies observed",
 		"samples":                smp.List(),
 		"observations":           obs.Map(),
 		"kernel_boundary_layer":  straceState,
